@@ -25,5 +25,11 @@ for fn in sorted(os.listdir(PROPS)):
 for l in open(os.path.join(ROOT, "properties.jsonl")):
     reg.setdefault(json.loads(l)["id"], {"modules": [], "theorems": []})
 json.dump(dict(sorted(reg.items())), open(os.path.join(ROOT, "lean", "theorems.json"), "w"), indent=1)
-open(os.path.join(PROPS, "All.lean"), "w").write("".join(f"import {m}\n" for m in mods))
+# Props/All.lean (built by MANIFEST.setup_cmd) imports the modules of the CLAIMED properties only
+try:
+    claimed = set(json.load(open(os.path.join(ROOT, "tools", "claims.json"))).keys())
+except Exception:
+    claimed = set(reg.keys())
+allmods = [m for pid, e in sorted(reg.items()) if pid in claimed for m in e["modules"]]
+open(os.path.join(PROPS, "All.lean"), "w").write("".join(f"import {m}\n" for m in allmods))
 print({k: len(v["theorems"]) for k, v in sorted(reg.items()) if v["theorems"]})
